@@ -213,6 +213,8 @@ func init() {
 					cshapes = append(cshapes, c14Loc{Hosts: hs, Prefixes: ps})
 				}
 			}
+			// lists that are present but empty (what a form sends after its last entry was deleted) constrain nothing
+			cshapes = append(cshapes, c14Loc{Hosts: []string{}, Prefixes: []string{}}, c14Loc{Hosts: []string{"a"}, Prefixes: []string{}}, c14Loc{Hosts: []string{}, Prefixes: []string{"/a"}})
 			n := 2
 			if c.Thorough() {
 				n = 3
